@@ -218,18 +218,50 @@ Definition render (seen : list N) (r : req) (p : resp) : str * list N :=
 (* ---------- cases ---------- *)
 Definition nl : N := 10.
 
+(* Ack-id references in case files: a token "@k" stands for the k-th most
+   recently delivered ack id of the case (k = 0 the last one), "^k" for the
+   k-th delivered, both modulo the number delivered so far; with nothing
+   delivered yet they stand for "0".  Delivered = appeared in a PULL or SR
+   result, in output order. *)
+Definition nth_mod (acks : list str) (k : N) (from_end : bool) : str :=
+  match acks with
+  | [] => [48]
+  | _ => let n := len_N acks in
+         let i := k mod n in
+         nth (N.to_nat (if from_end then n - 1 - i else i)) acks [48]
+  end.
+
+Definition resolve_tok (acks : list str) (t : str) : str :=
+  match t with
+  | 64 :: r => match digits_value r 0 with
+               | Some k => hex_field (nth_mod acks k true) | None => t end
+  | 94 :: r => match digits_value r 0 with
+               | Some k => hex_field (nth_mod acks k false) | None => t end
+  | _ => t
+  end.
+
+Definition resp_acks (p : resp) : list str :=
+  match p with
+  | PMsgs ls => map (fun l => dec_of_N (l_ack l)) ls
+  | PStream bs _ => flat_map (map (fun l => dec_of_N (l_ack l))) bs
+  | _ => []
+  end.
+
 (* Runs the op lines of one case; an unparsable line renders as "?" and stops
    nothing (it is a harness/generator bug, never a property of the server). *)
-Fixpoint run_lines (sv : server) (seen : list N) (lines : list (list str)) : list str :=
+Fixpoint run_lines (sv : server) (seen : list N) (acks : list str) (lines : list (list str))
+  : list str :=
   match lines with
   | [] => []
   | ts :: rest =>
-      match parse_op ts with
-      | None => [63] :: run_lines sv seen rest
+      if match ts with t :: _ => is_kw "SEED" t | [] => false end
+      then kw "SEED" :: run_lines sv seen acks rest else
+      match parse_op (map (resolve_tok acks) ts) with
+      | None => [63] :: run_lines sv seen acks rest
       | Some r =>
           let (sv', p) := api_step sv r in
           let (line, seen') := render seen r p in
-          line :: run_lines sv' seen' rest
+          line :: run_lines sv' seen' (acks ++ resp_acks p) rest
       end
   end.
 
@@ -249,7 +281,6 @@ Fixpoint cases_of (lines : list str) (cur : option (str * list str)) : list (str
           else if is_kw "END" t then
             (match cur with Some c => [(fst c, rev (snd c))] | None => [] end)
               ++ cases_of rest None
-          else if is_kw "SEED" t then cases_of rest cur
           else match cur with
                | Some c => cases_of rest (Some (fst c, l :: snd c))
                | None => cases_of rest None
@@ -258,7 +289,7 @@ Fixpoint cases_of (lines : list str) (cur : option (str * list str)) : list (str
   end.
 
 Definition run_case (c : str * list str) : list str :=
-  fst c :: run_lines init_server [] (map tokens (snd c)) ++ [kw "END"].
+  fst c :: run_lines init_server [] [] (map tokens (snd c)) ++ [kw "END"].
 
 Fixpoint join_nl (l : list str) : str :=
   match l with
